@@ -31,6 +31,10 @@ namespace {
 const char* const KEY_QMONO =
     "C17|tdigest|get_quantile decreases while the rank increases|two ranks between the same two centroids, at least one of weight>1";
 
+// known finding: see out/proposed/C17-2.diff
+const char* const KEY_QRANGE =
+    "C17|tdigest|get_quantile one rounding step outside [min,max]|interpolation between two centroids with equal or nearly equal means at an extreme (constant stream, duplicates of min or max)";
+
 template <typename T> struct Lim;
 template <> struct Lim<double> { static constexpr double big = 1e150; static const char* name() { return "double"; } };
 template <> struct Lim<float> { static constexpr double big = 1e18; static const char* name() { return "float"; } };
@@ -133,7 +137,7 @@ template <typename T> T next_up(T v) { return std::nextafter(v, std::numeric_lim
 template <typename T> T next_down(T v) { return std::nextafter(v, -std::numeric_limits<T>::infinity()); }
 
 // the query battery (compresses the digest as a side effect, like any query)
-template <typename T> void battery(Slot<T>& s, uint64_t seed, CaseStats& cst, Deferred& def) {
+template <typename T> void battery(Slot<T>& s, uint64_t seed, CaseStats& cst, Deferred& def, Deferred& defr) {
   const tdigest<T>& td = s.td;
   const T inf = std::numeric_limits<T>::infinity();
   const T nan = std::numeric_limits<T>::quiet_NaN();
@@ -245,8 +249,14 @@ template <typename T> void battery(Slot<T>& s, uint64_t seed, CaseStats& cst, De
   for (size_t i = 0; i < ranks.size(); ++i) {
     const double rr = ranks[i];
     const T q = td.get_quantile(rr);
-    VF_CHECK(q >= s.mn && q <= s.mx, "quantile-range", std::setprecision(17) << "get_quantile(" << rr << ") = " << q << " outside [min,max] = [" << s.mn << "," << s.mx
-             << "] (n=" << s.n << ", k=" << s.k << ")");
+    // beyond the rounding allowance: plain failure; inside it (exact claim of the statement): known finding, deferred
+    VF_CHECK(static_cast<double>(q) >= static_cast<double>(s.mn) - tol && static_cast<double>(q) <= static_cast<double>(s.mx) + tol, "quantile-range",
+             std::setprecision(17) << "get_quantile(" << rr << ") = " << q << " outside [min,max] = [" << s.mn << "," << s.mx << "] (n=" << s.n << ", k=" << s.k << ")");
+    if (!defr.set && !(q >= s.mn && q <= s.mx)) {
+      std::ostringstream os;
+      os << std::setprecision(17) << "get_quantile(" << rr << ") = " << q << " outside [min,max] = [" << s.mn << "," << s.mx << "] (" << Lim<T>::name() << ", n=" << s.n << ", k=" << s.k << ")";
+      defr.set = true; defr.msg = os.str();
+    }
     if (rr == 0.0) VF_CHECK(q == s.mn, "quantile-0-is-min", "get_quantile(0) = " << q << " min " << s.mn);
     if (rr == 1.0) VF_CHECK(q == s.mx, "quantile-1-is-max", "get_quantile(1) = " << q << " max " << s.mx);
     if (i > 0 && !def.set && !(static_cast<double>(q) >= static_cast<double>(prevq) - tol)) {
@@ -391,7 +401,7 @@ template <typename T> void prop_main_t(const Case& cs) {
   std::vector<Slot<T>> sl;
   for (int i = 0; i < 4; ++i) sl.emplace_back(k_from(cs.get("k" + std::to_string(i), 100)));
   CaseStats cst;
-  Deferred def;
+  Deferred def, defr;
   for (auto& s : sl) cheap_check(s, "construction");
   auto note_flip = [&](Slot<T>& s, const Summary& before) {
     Summary after = summary(s.td);
@@ -506,7 +516,7 @@ template <typename T> void prop_main_t(const Case& cs) {
       cheap_check(s, with_buffer ? "serialize(with buffer)/deserialize" : "serialize/deserialize");
     } else if (op.name == "q") {
       Summary before = summary(s.td);
-      battery(s, op.uarg(1), cst, def);
+      battery(s, op.uarg(1), cst, def, defr);
       note_flip(s, before);
     } else {
       continue;
@@ -515,7 +525,7 @@ template <typename T> void prop_main_t(const Case& cs) {
   // final batteries
   for (size_t i = 0; i < sl.size(); ++i) {
     Summary before = summary(sl[i].td);
-    battery(sl[i], vf::mix64(0xC17 + i), cst, def);
+    battery(sl[i], vf::mix64(0xC17 + i), cst, def, defr);
     note_flip(sl[i], before);
   }
   // ---- labels
@@ -543,6 +553,7 @@ template <typename T> void prop_main_t(const Case& cs) {
   if (cst.merges >= 1 && cst.compressions >= 2 && cst.merged_battery >= 1) vf::nontrivial();
   // ---- the deferred known finding
   VF_CHECK_K(!def.set, "quantile-monotone", KEY_QMONO, def.msg);
+  VF_CHECK_K(!defr.set, "quantile-range-exact", KEY_QRANGE, defr.msg);
 }
 
 void prop_main(const Case& cs) {
